@@ -160,4 +160,32 @@ var checks = map[string]*check{
 			{Name: "concurrent", Kind: "explore", Scen: "kill_plugin", Inst: inst("conc", "conc-thorough"), Depths: depths([]int{2}, []int{2, 3}), Budget: budget(3*time.Minute, 20*time.Minute)},
 		},
 	},
+	"C03": {
+		Title: "Plugin failure at any point becomes a host error, never a crash or hang",
+		Level: "fault_enumeration",
+		Rule: "a full host session (Start, Client, Dispense, unary call, a second goroutine holding a long call, brokered exchange host->plugin and plugin->host, Ping, Kill) on net/rpc, gRPC and gRPC+mux against a scripted plugin process; " +
+			"the fault 'plugin process dies now' is offered at every decision point of every explored schedule (quick: crash point x canonical schedule; thorough: plus one more scheduling / timer / select deviation); non-trivial = executions in which the crash was injected",
+		Assumptions: []string{
+			"process death = the failure domain is marked dead, its sockets and stdio pipes are closed as the kernel does, its goroutines never run again",
+			"every quiescent state of the session is a crash point (a superset of the eight named points: the handshake line is written in two pieces, the listener exists before the line, brokered ids are negotiated in separate steps)",
+			"bounded-latency verdicts (6 s; 14 s for a brokered exchange) only without TIME deviation",
+		},
+		Parts: []part{
+			{Name: "crash-points", Kind: "explore", Scen: "crash_plugin", Depths: depths([]int{2}, []int{2, 3}), Budget: budget(3*time.Minute, 25*time.Minute)},
+		},
+	},
+	"C11": {
+		Title: "Synced stdout/stderr arrive byte-exact, in order, on the right stream",
+		Level: "model_checking",
+		Rule: "enumeration: per stream every sequence of 1 (quick: plus 9 chosen 2-3 write shapes; thorough: every sequence of <= 2) writes with sizes {0, 1, 1023, 1024, 1025, 4095, 4096, 4097, 10000, 70000} of position-dependent binary patterns tagged per stream, crossed between the two streams, x {net/rpc, gRPC, gRPC+mux} x {data written before / after the host attaches}, with one RPC in flight; " +
+			"schedules: two 3-write shapes per protocol/attach point under every schedule / select choice / timer order with <= d deviations; non-trivial = at least one byte written",
+		Assumptions: []string{
+			"the plugin's stdout/stderr are 64 KiB pipe models feeding the real RPCServer / GRPCServer (what Serve wires up); Serve's os.Stdout swap itself is an E3 concern",
+			"byte-fidelity verdict in every execution; 'all bytes arrived within 10 s' only without TIME deviation",
+		},
+		Parts: []part{
+			{Name: "sizes", Kind: "explore", Scen: "stdio_sync", BatchN: 60, Depths: depths([]int{0}, []int{0}), Budget: budget(3*time.Minute, 30*time.Minute)},
+			{Name: "schedules", Kind: "explore", Scen: "stdio_sync", Inst: inst("sched", "sched"), Depths: depths([]int{2}, []int{2, 3}), Budget: budget(3*time.Minute, 20*time.Minute)},
+		},
+	},
 }
